@@ -460,7 +460,8 @@ def failing_ext(cls, v):
         elif isinstance(x, (tuple, list)):
             for y in x:
                 walk(y)
-    walk(v)
+    # a top-level tag of a message (SessionTicketPayload version) is not an extension
+    walk(v.v if isinstance(v, Tagged) and not cls.name.startswith('Extension(') else v)
     return found[0] if found else None
 
 
